@@ -28,6 +28,18 @@ from nemoguardrails.utils import CustomDumper
 log = logging.getLogger(__name__)
 
 
+EXPANSION = textwrap.dedent(
+    r"""
+    \1$flow_info = await GenerateFlowAction(flow_id=$self.flow_id)
+    \1await AddFlowsAction(config=$flow_info['body'])
+    \1$instance_uid = uid()
+    \1send StartFlow(flow_id=$flow_info['name'], flow_instance_uid=$instance_uid, context=$self.context)
+    \1match FlowStarted(flow_instance_uid=$instance_uid)
+    \1match FlowFinished(flow_instance_uid=$instance_uid)
+    """
+)
+
+
 class ColangParser:
     """Colang 2.x parser class"""
 
@@ -64,33 +76,14 @@ class ColangParser:
         in_docstring = False
         for i in range(len(lines)):
             line = lines[i]
-            if (
-                not in_docstring
-                and line.strip().startswith('"""')
-                and line.strip().endswith('"""')
-                and line.strip() != '"""'
-            ):
-                pass
-            elif not in_docstring and line.strip().startswith('"""'):
-                in_docstring = True
-            elif in_docstring and line.strip().endswith('"""'):
-                in_docstring = False
-            elif in_docstring:
-                pass
-            else:
+            quotes = line.count('"""')
+            if quotes % 2 == 1:
+                in_docstring = not in_docstring
+            elif quotes == 0 and not in_docstring:
                 # We make sure to capture the correct indentation level and use that.
                 lines[i] = re.sub(
-                    r"^( +)\.\.\.",
-                    textwrap.dedent(
-                        r"""
-                        \1$flow_info = await GenerateFlowAction(flow_id=$self.flow_id)
-                        \1await AddFlowsAction(config=$flow_info['body'])
-                        \1$instance_uid = uid()
-                        \1send StartFlow(flow_id=$flow_info['name'], flow_instance_uid=$instance_uid, context=$self.context)
-                        \1match FlowStarted(flow_instance_uid=$instance_uid)
-                        \1match FlowFinished(flow_instance_uid=$instance_uid)
-                        """
-                    ),
+                    r"^( +)\.\.\.[ \t]*(#.*)?$",
+                    EXPANSION,
                     line,
                 )
 
